@@ -64,7 +64,10 @@ fn build(c: &'static Coin, case: &Case) -> ChainBuilder {
     for (i, t) in case.times.iter().enumerate() {
         let h = case.base + i as u64;
         let reward = base_reward(h);
-        let v = if case.cb_delta == i64::MIN { 0 } else { (reward as i64 + case.cb_delta).max(0) as u64 };
+        // cb_delta 31337: blocks alternate between collecting 5000 in fees and claiming 1000 less than the subsidy
+        // (fees are floored at zero per coinbase, not over the whole range)
+        let delta = if case.cb_delta == 31337 { if i % 2 == 0 { 5000 } else { -1000 } } else { case.cb_delta };
+        let v = if case.cb_delta == i64::MIN { 0 } else { (reward as i64 + delta).max(0) as u64 };
         let filler_out = if case.mix == 9 { vec![TxOut { value: 1, script: vec![0x51; (i * 3) % 3000 + i / 4] }] } else { vec![] };
         let mut txs = vec![coinbase(h, 5, [vec![pay(1, v), pay(2, 1234), TxOut { value: 0, script: refmodel::script::op_return(format!("block {}", h).as_bytes()) }], filler_out].concat())];
         txs.extend(mix_txs(case.mix, h));
@@ -116,6 +119,9 @@ pub fn run() -> Report {
                 cases.push(Case { coin: cn, base, times: vec![1000, 2000, 2500], mix: 1, cb_delta: d, types_world: false, label: "reward boundaries" });
             }
         }
+        for n in [2usize, 3, 4, 5] {
+            cases.push(Case { coin: cn, base: 0, times: (0..n).map(|i| 1000 + 600 * i as u32).collect(), mix: 1, cb_delta: 31337, types_world: false, label: "coinbases above and below the subsidy in one range" });
+        }
         cases.push(Case { coin: cn, base: 0, times: vec![1000, 2000, 1500], mix: 1, cb_delta: 7, types_world: true, label: "every script type" });
         cases.push(Case { coin: cn, base: 0, times: vec![1000, 2000, 1500], mix: 4, cb_delta: 7, types_world: true, label: "every script type" });
     }
@@ -137,7 +143,7 @@ pub fn run() -> Report {
             cases.push(Case { coin: cn, base, times: vec![1000, 2000, 2500], mix: 1, cb_delta: 5000, types_world: false, label: "reward shift >= 64" });
         }
     }
-    rep.rule = "chains of 1..4 blocks x ALL timestamp sequences over {1, 1000, 4e9} (non-monotonic, equal, gaps summing beyond 2^32) x 6 transaction mixes (coinbase only, +1 tx, value tie, stripped-size tie, segwit tx biggest on disk only, a tx with wide CompactSize forms) on bitcoin (all) and litecoin; coinbase first-output value {reward-1, reward, reward+1, reward+5000, 0} x start heights around the halvings (sparse indexes); one world per coin with every script class; every figure of the parsed report compared with an exact integer / rational recomputation; non-trivial = distinct case with >= 2 blocks".into();
+    rep.rule = "chains of 1..4 blocks x ALL timestamp sequences over {1, 1000, 4e9} (non-monotonic, equal, gaps summing beyond 2^32) x 6 transaction mixes (coinbase only, +1 tx, value tie, stripped-size tie, segwit tx biggest on disk only, a tx with wide CompactSize forms) on bitcoin (all) and litecoin; coinbase first-output value {reward-1, reward, reward+1, reward+5000, 0, alternating reward+5000 / reward-1000} x start heights around the halvings (sparse indexes); one world per coin with every script class; every figure of the parsed report compared with an exact integer / rational recomputation; non-trivial = distinct case with >= 2 blocks".into();
     rep.bound = json!({"cases": cases.len(), "timestamps": tvals, "max_blocks": 4});
     rep.not_covered = vec!["value sums >= 2^64".into(), "header time 0 (used as 'no previous block' sentinel by the code; cannot occur after 1970)".into()];
     let root = refmodel::world::scratch_root();
